@@ -133,6 +133,10 @@ def build_cases(ctx: Ctx, n_random: int, sizes: list[int], with_corpus: bool, mu
         defs.append({"kind": "terminal_fork", "blk": d})
     for d in pvlib.enumerate_break_forks():
         defs.append({"kind": "break_fork", "blk": d})
+    # scale: forks of 5 and 6 branches, alternating forks nested four deep (all clauses of C01, C02, C05 hold for the
+    # nine of them on the unchanged tree)
+    for d in pvlib.enumerate_wide_deep():
+        defs.append({"kind": "wide_deep", "blk": d})
     if bunched:
         # forks opened directly under one another (outside F's grammar: a branch that begins with a fork; the corpus has
         # a handful of them): every clause of C01, C02 and C05 holds on the unchanged tree for these 64
@@ -147,6 +151,9 @@ def build_cases(ctx: Ctx, n_random: int, sizes: list[int], with_corpus: bool, mu
         # non-overlapping on the unchanged tree for all 16)
         for d in pvlib.enumerate_loops_on_exits():
             defs.append({"kind": "f_adjacent_loops_on_exits", "blk": d})
+        # scale: eight long jobs with a 12-event loop body (inside F)
+        for d in pvlib.enumerate_large_loops():
+            defs.append({"kind": "large_loop", "blk": d})
     if f_adjacent:
         # outside F (C01/C02 do not quantify over them: with nothing after the outer loop the exit is unobservable and
         # the learner is not sound there); C05's clauses are stated for every emitted file
